@@ -232,6 +232,8 @@ fn check_lim_sequences(tier: Tier, rep: &mut Report) {
 // service: in-flight exact, readiness iff live < limit (engine A)
 
 struct Svc {
+    /// callers may go through either of two services built by one layer
+    siblings: bool,
     vegas: bool,
     callers: usize,
     max_ticks: usize,
@@ -271,10 +273,14 @@ impl Handle {
 
 struct X {
     svc: Handle,
-    /// per caller: its own clone, once it has checked readiness successfully
-    ready: Vec<Option<Handle>>,
+    /// a second service produced by the same layer: it shares the algorithm (the limit) with
+    /// `svc` but counts its own calls
+    sibling: Handle,
+    /// per caller: (service index, its own clone), once it has checked readiness successfully
+    ready: Vec<Option<(u8, Handle)>>,
     ready_checks: usize,
     saw_refusal: bool,
+    last_checked: u8,
 }
 
 fn map(r: Result<trv_core::inner::Resp, AdaptiveError<trv_core::inner::InnerErr>>) -> Outcome {
@@ -291,31 +297,35 @@ impl Scenario for Svc {
         "C13"
     }
     fn label(&self) -> String {
-        format!("adaptive service algorithm={} callers={}", if self.vegas { "vegas" } else { "aimd" }, self.callers)
+        format!("adaptive service algorithm={} callers={}{}", if self.vegas { "vegas" } else { "aimd" }, self.callers, if self.siblings { " two-services-of-one-layer" } else { "" })
     }
     fn callers(&self) -> usize {
         self.callers
     }
     fn init(&self, w: &mut World) -> X {
         let inner = GatedInner::new(w.inner.clone());
-        let svc = if self.vegas {
-            Handle::V(AdaptiveLimiterLayer::new(Vegas::new(2, 1, 3, 1, 2)).layer(inner))
+        let inner2 = GatedInner::new(w.inner.clone());
+        let (svc, sibling) = if self.vegas {
+            let layer = AdaptiveLimiterLayer::new(Vegas::new(2, 1, 3, 1, 2));
+            (Handle::V(layer.layer(inner)), Handle::V(layer.layer(inner2)))
         } else {
             let a = Aimd::builder().initial_limit(2).min_limit(1).max_limit(3).latency_threshold(Duration::from_millis(THRESH_MS)).build();
-            Handle::A(AdaptiveLimiterLayer::new(a).layer(inner))
+            let layer = AdaptiveLimiterLayer::new(a);
+            (Handle::A(layer.layer(inner)), Handle::A(layer.layer(inner2)))
         };
-        X { svc, ready: (0..self.callers + 4).map(|_| None).collect(), ready_checks: 0, saw_refusal: false }
+        X { svc, sibling, ready: (0..self.callers + 4).map(|_| None).collect(), ready_checks: 0, saw_refusal: false, last_checked: 0 }
     }
     /// Ctl(0): the next caller checks readiness on its own clone
     fn ctl_actions(&self, w: &World, x: &X) -> Vec<u8> {
         match w.callers.iter().position(|c| c.phase == Phase::NotArrived) {
-            Some(c) if c < self.callers && x.ready[c].is_none() => vec![0],
+            Some(c) if c < self.callers && x.ready[c].is_none() => if self.siblings { vec![0, 1] } else { vec![0] },
             _ => vec![],
         }
     }
-    fn apply_ctl(&self, w: &mut World, x: &mut X, _ctl: u8) {
+    fn apply_ctl(&self, w: &mut World, x: &mut X, ctl: u8) {
         let c = w.callers.iter().position(|c| c.phase == Phase::NotArrived).unwrap();
-        let mut h = x.svc.clone_h();
+        let mut h = if ctl == 0 { x.svc.clone_h() } else { x.sibling.clone_h() };
+        x.last_checked = ctl;
         let waker = futures::task::noop_waker();
         let mut cx = std::task::Context::from_waker(&waker);
         let r = match &mut h {
@@ -329,12 +339,13 @@ impl Scenario for Svc {
             std::task::Poll::Pending => 3,
         };
         if let std::task::Poll::Ready(true) = r {
-            x.ready[c] = Some(h);
+            x.ready[c] = Some((ctl, h));
         }
     }
     fn arrive(&self, w: &mut World, x: &mut X, c: usize, _v: u8) {
-        let mut h = x.ready[c].take().expect("arrive without readiness");
-        let req = Req::new(c as u32, 0);
+        let (which, mut h) = x.ready[c].take().expect("arrive without readiness");
+        // the request's key names the service it goes through
+        let req = Req::new(c as u32, which);
         let fut: trv_core::world::CallerFut = match &mut h {
             Handle::A(s) => {
                 let f = s.call(req.clone());
@@ -362,28 +373,36 @@ impl Scenario for Svc {
         }
     }
     fn fingerprint(&self, _w: &World, x: &X) -> String {
-        format!("if{} lim{} ready{:?}", x.svc.in_flight(), x.svc.limit(), x.ready.iter().map(|r| r.is_some() as u8).collect::<Vec<_>>())
+        format!("if{}/{} lim{} ready{:?}", x.svc.in_flight(), x.sibling.in_flight(), x.svc.limit(), x.ready.iter().map(|r| r.as_ref().map(|(s, _)| *s)).collect::<Vec<_>>())
     }
     fn after(&self, w: &mut World, x: &mut X, a: &Action, out: &mut Vec<Viol>) {
         let site = "AdaptiveService";
-        let live = w.inner_live();
-        let inf = x.svc.in_flight();
+        let live_of = |w: &World, key: u8| w.inner.lock().unwrap().calls.iter().filter(|k| k.req.key == key && k.status == trv_core::inner::CallStatus::Pending).count();
         let lim = x.svc.limit();
-        if inf != live {
-            out.push(Viol::new("in_flight_mismatch", site, format!("in_flight() reports {inf} but {live} inner calls are in flight (after {})", a.enc())));
+        for (key, h) in [(0u8, &x.svc), (1u8, &x.sibling)] {
+            let live = live_of(w, key);
+            let inf = h.in_flight();
+            if inf != live {
+                out.push(Viol::new("in_flight_mismatch", site, format!("service {key}: in_flight() reports {inf} but {live} of its inner calls are in flight (after {})", a.enc())));
+            }
+        }
+        if x.sibling.limit() != lim {
+            out.push(Viol::new("limit_not_shared", site, format!("two services of one layer report limits {} and {}", lim, x.sibling.limit())));
         }
         if !(1..=3).contains(&lim) {
             out.push(Viol::new("limit_out_of_bounds", site, format!("limit {lim} outside [1,3]")));
         }
-        if let Action::Ctl(_) = a {
+        if let Action::Ctl(which) = a {
             // the caller that just checked readiness
             if let Some(c) = w.callers.iter().position(|c| c.phase == Phase::NotArrived) {
                 let ans = w.callers[c].user;
+                let live = live_of(w, *which);
+                let inf = if *which == 0 { x.svc.in_flight() } else { x.sibling.in_flight() };
                 if live < lim && ans != 1 {
-                    out.push(Viol::new("readiness_refused_below_limit", site, format!("{live} calls in flight, limit {lim}, but poll_ready did not return Ready (in_flight()={inf})")));
+                    out.push(Viol::new("readiness_refused_below_limit", site, format!("service {which}: {live} calls in flight, limit {lim}, but poll_ready did not return Ready (in_flight()={inf})")));
                 }
                 if live >= lim && ans == 1 {
-                    out.push(Viol::new("ready_at_limit", site, format!("{live} calls in flight, limit {lim}, but poll_ready returned Ready")));
+                    out.push(Viol::new("ready_at_limit", site, format!("service {which}: {live} calls in flight, limit {lim}, but poll_ready returned Ready")));
                 }
                 if ans == 3 {
                     x.saw_refusal = true;
@@ -407,6 +426,9 @@ impl Scenario for Svc {
         if x.svc.limit() != 2 {
             v.push("limit_adapted");
         }
+        if self.siblings && x.svc.limit() != 2 && x.svc.in_flight() + x.sibling.in_flight() > 0 {
+            v.push("limit_moved_while_sibling_busy");
+        }
         if w.inner_live() >= 2 {
             v.push("two_calls_in_flight");
         }
@@ -418,20 +440,24 @@ impl Scenario for Svc {
             out.push(Viol::new("caller_never_resolves", site, "callers unresolved after draining".to_string()));
             return "stuck".into();
         }
-        let inf = x.svc.in_flight();
+        let inf = x.svc.in_flight() + x.sibling.in_flight();
         if inf != 0 {
-            out.push(Viol::new("in_flight_not_zero_at_quiescence", site, format!("nothing is running but in_flight() reports {inf}")));
+            out.push(Viol::new("in_flight_not_zero_at_quiescence", site, format!("nothing is running but in_flight() reports {} / {}", x.svc.in_flight(), x.sibling.in_flight())));
         }
-        // readiness must be granted again
-        let mut h = x.svc.clone_h();
-        let waker = futures::task::noop_waker();
-        let mut cx = std::task::Context::from_waker(&waker);
-        let ready = match &mut h {
-            Handle::A(s) => Service::<Req>::poll_ready(s, &mut cx).is_ready(),
-            Handle::V(s) => Service::<Req>::poll_ready(s, &mut cx).is_ready(),
-        };
-        if !ready {
-            out.push(Viol::new("readiness_refused_below_limit", site, format!("nothing is running (limit {}) but poll_ready is Pending", x.svc.limit())));
+        // readiness must be granted again, on both services
+        let mut ready = true;
+        for base in [&x.svc, &x.sibling] {
+            let mut h = base.clone_h();
+            let waker = futures::task::noop_waker();
+            let mut cx = std::task::Context::from_waker(&waker);
+            let r = match &mut h {
+                Handle::A(s) => Service::<Req>::poll_ready(s, &mut cx).is_ready(),
+                Handle::V(s) => Service::<Req>::poll_ready(s, &mut cx).is_ready(),
+            };
+            if !r {
+                ready = false;
+                out.push(Viol::new("readiness_refused_below_limit", site, format!("nothing is running (limit {}) but poll_ready is Pending", x.svc.limit())));
+            }
         }
         let sig: Vec<String> = w.callers.iter().map(|c| match &c.phase { Phase::Done(o) => o.tag(), p => format!("{p:?}") }).collect();
         format!("{sig:?}/{inf}/{ready}")
@@ -440,8 +466,9 @@ impl Scenario for Svc {
 
 fn svc_configs(tier: Tier) -> Vec<Svc> {
     vec![
-        Svc { vegas: false, callers: tier.pick(3, 4), max_ticks: 3, max_drops: 2, max_panics: 1, max_ready_checks: tier.pick(5, 6) },
-        Svc { vegas: true, callers: 3, max_ticks: 2, max_drops: 1, max_panics: 1, max_ready_checks: 4 },
+        Svc { siblings: false, vegas: false, callers: tier.pick(3, 4), max_ticks: 3, max_drops: 2, max_panics: 1, max_ready_checks: tier.pick(5, 6) },
+        Svc { siblings: false, vegas: true, callers: 3, max_ticks: 2, max_drops: 1, max_panics: 1, max_ready_checks: 4 },
+        Svc { siblings: true, vegas: false, callers: 3, max_ticks: tier.pick(1, 2), max_drops: 1, max_panics: 0, max_ready_checks: tier.pick(4, 5) },
     ]
 }
 
@@ -485,7 +512,7 @@ fn main() {
         "sequentially consistent memory for (a); prompt executor and poll granularity for (c)".into(),
         "'in flight' means: inner calls created and neither resolved, panicked nor dropped (the harness's own log)".into(),
     ];
-    for w in ["interleaving_schedules", "config_with_several_final_limits", "readiness_refused_at_limit", "running_call_dropped", "inner_panicked", "limit_adapted", "two_calls_in_flight"] {
+    for w in ["interleaving_schedules", "config_with_several_final_limits", "readiness_refused_at_limit", "running_call_dropped", "inner_panicked", "limit_adapted", "limit_moved_while_sibling_busy", "two_calls_in_flight"] {
         rep.require_witness(w);
     }
     let lims = lim_configs(tier);
